@@ -12,7 +12,7 @@ import re
 
 from .. import facts, expr as X, hashnf
 from ..report import Check
-from ..facts import VERIF, AnalysisBroken
+from ..facts import VERIF, AnalysisBroken, walk
 
 PAIRS = [("spifhash_jenkins", "ref_jenkins"), ("spifhash_jenkins32", "ref_jenkins32"),
          ("spifhash_jenkinsLE", "ref_jenkins"), ("spifhash_rotating", "ref_rotating"),
@@ -34,6 +34,18 @@ def alignment_guarded(fn, node):
             if c.get("k") == "bin" and c.get("op") in ("==", "!=") and X.const_val(c["ch"][1]) == 0:
                 eq0 = c["op"] == "=="
                 c = X.strip(c["ch"][0])
+            if c.get("k") == "ref" and c.get("rk") == "local":
+                # the test hoisted into a local that is set once (misalignment = key & 3;  if (misalignment == 0) ..)
+                defs = []
+                for y in walk(fn.body):
+                    if y.get("k") == "assign" and X.strip(y["ch"][0]).get("d") == c["d"]:
+                        defs.append(y["ch"][1] if y.get("op") == "=" else None)
+                    elif y.get("k") == "decl":
+                        defs += [d_["init"] for d_ in y.get("decls", ()) if d_["d"] == c["d"] and d_.get("init") is not None]
+                    elif y.get("k") == "un" and y.get("op") in ("++", "--") and X.strip(y["ch"][0]).get("d") == c["d"]:
+                        defs.append(None)
+                if len(defs) == 1 and defs[0] is not None:
+                    c = X.strip(defs[0])
             if c.get("k") == "bin" and c.get("op") == "&" and X.const_val(c["ch"][1]) in (3, 7, 15):
                 p = X.strip(c["ch"][0])
                 if p.get("k") == "ref" and p.get("rk") == "param":
